@@ -54,7 +54,8 @@ fn value_at(b: &[u8], at: usize) -> Result<(PVal, usize), String> {
         30 => {
             let len = u32at(b, at + 4).ok_or("LPSTR length beyond the stream")? as usize;
             if len == 0 {
-                return Err("LPSTR with length 0 (no terminator)".into());
+                // [MS-OLEPS] CodePageString: "If Size is zero, there is no Characters field" - the empty string
+                return Ok((PVal::LpStr(Vec::new()), 8));
             }
             let bytes = b.get(at + 8..at + 8 + len).ok_or("LPSTR bytes beyond the stream")?;
             if bytes[len - 1] != 0 {
@@ -204,11 +205,17 @@ pub struct PsEncOptions {
     pub version: u16,
     /// extra bytes between header and section (multiple of 4)
     pub section_gap: usize,
+    /// empty strings are written with size 0 and no characters (instead of size 1 and a terminator)
+    pub empty_strings_size0: bool,
 }
 
-fn value_bytes(v: &PVal) -> Vec<u8> {
+fn value_bytes(v: &PVal, size0: bool) -> Vec<u8> {
     let mut o = Vec::new();
     match v {
+        PVal::LpStr(b) if b.is_empty() && size0 => {
+            o.extend_from_slice(&30u32.to_le_bytes());
+            o.extend_from_slice(&0u32.to_le_bytes());
+        }
         PVal::Empty => o.extend_from_slice(&0u32.to_le_bytes()),
         PVal::Null => o.extend_from_slice(&1u32.to_le_bytes()),
         PVal::I1(x) => {
@@ -252,7 +259,7 @@ pub fn encode(props: &[(u32, PVal)], opts: &PsEncOptions) -> Vec<u8> {
     for &i in &layout {
         body.extend(std::iter::repeat(0u8).take(4 * opts.gap_words));
         offsets[i] = (base + body.len()) as u32;
-        body.extend(value_bytes(&props[i].1));
+        body.extend(value_bytes(&props[i].1, opts.empty_strings_size0));
     }
     body.extend(std::iter::repeat(0u8).take(4 * opts.trailing_words));
     let section_size = (base + body.len()) as u32;
